@@ -198,6 +198,14 @@ impl Check for C18 {
             scn.calls = vec![CallSpec::Setup { problem: 0 }, gen::construct_call(n), gen::construct_call(n), big(), CallSpec::SetProblem { problem: 1 }, big()];
             scn.params.insert("interrupted_construction".into(), 1.0);
         }
+        // another one in twenty: the checker unwinds inside the FIRST QUERY (at one of its
+        // start-attachment motion checks; the position is found with a dry run in evaluate); the
+        // caller catches it and asks the same query again, then replaces the problem and asks
+        // again. Whatever the interrupted query left behind, the later ones are judged in full.
+        else if rng.chance(0.05) {
+            scn.calls = vec![CallSpec::Setup { problem: 0 }, gen::construct_call(n), big(), big(), CallSpec::SetProblem { problem: 1 }, big(), CallSpec::SetProblem { problem: 0 }, big()];
+            scn.params.insert("interrupted_query".into(), rng.below(1 << 20) as f64);
+        }
         // a tenth of the scenarios assign the public parameter fields after setup (the
         // constructor got other values)
         if rng.chance(0.1) {
@@ -209,6 +217,24 @@ impl Check for C18 {
 
     fn evaluate(&self, scn: &Scenario) -> Report {
         let mut rep = Report::default();
+        let derived;
+        let mut scn = scn;
+        if let Some(r) = scn.param("interrupted_query") {
+            let dry = run(scn, &RunOpts { snapshots: false, ..Default::default() });
+            if let Some(ci) = scn.calls.iter().position(|c| matches!(c, CallSpec::Solve { .. })) {
+                if let Some(call) = dry.calls.get(ci) {
+                    let before = dry.log[..call.ev_lo].iter().filter(|e| matches!(e, Ev::Valid(..))).count() as u64;
+                    let inside = dry.log[call.ev_lo..call.ev_hi].iter().filter(|e| matches!(e, Ev::Valid(..))).count() as u64;
+                    if inside > 0 {
+                        let mut d = scn.clone();
+                        d.faults.push(FaultSpec::ValidityPanicAt { at_call: before + 1 + (r as u64) % inside });
+                        derived = d;
+                        scn = &derived;
+                        rep.probe("query_interrupted");
+                    }
+                }
+            }
+        }
         let out = run(scn, &RunOpts::default());
         rep.absorb(&out);
         if !scn.sampling.script.is_empty() {
